@@ -460,7 +460,7 @@ MANIFEST = {
             "both roles and real foundations compared by the TLC monitor PriorityMon. Thorough tier: all offsets 0..65535.",
             NOTE % "PriorityMon.tla", TECH),
     "C19": ("model_checking", "5.C19", "Rewrite.tla states the documented lookup/precedence/validation/application semantics; TLC enumerates all rule lists up "
-            "to length 2 (quick) / 3 (thorough) over a 16-rule pool plus seeded longer lists x 27 lookup keys, invalid lists and legacy NAT1To1IPs lists, checks "
+            "to length 2 (quick) / 3 (thorough) over a 20-rule pool plus seeded longer lists x 54 lookup keys (27 keys x two spellings of the address), invalid lists and legacy NAT1To1IPs lists, checks "
             "the no-cross-family/precedence laws on the specification and writes the expected outcome; the real mapper (directly and through agents built with "
             "WithAddressRewriteRules / NAT1To1IPs) and the real application functions are compared by the TLC monitor RewriteMon.",
             NOTE % "RewriteMon.tla", TECH),
